@@ -12,7 +12,7 @@
 EXTENDS Gen_C02
 CONSTANTS Dev
 VARIABLES sc, step
-Cell(vid, dep, did, rank) == [vid |-> vid, dep |-> dep, did |-> did, fr12 |-> rank, half |-> 1]
+Cell(vid, dep, did, rank) == [vid |-> vid, dep |-> dep, did |-> did, fr12 |-> rank, half |-> 1, top |-> 1]
 Code(s) == (CASE s.v = "x" -> 1 [] s.v = "y" -> 2 [] OTHER -> 3) * 100000
 PRow(P, i, n) == IF "params_repeat" \in Dev THEN P[((i - 1) % Len(P)) + 1] ELSE P[PIdx(i, n)]
 RECURSIVE ImplRows(_, _)
